@@ -6,6 +6,7 @@ package core
 import (
 	"fmt"
 	"net"
+	"runtime"
 	"runtime/debug"
 	"sort"
 	"strings"
@@ -50,6 +51,17 @@ func (verifRedis) Close() error                      { return nil }
 type VerifWorld struct {
 	el  *eventloop
 	eng *engine
+}
+
+// VerifQuiesce waits until background goroutines spawned by library code (the third-party hashmap
+// grows its table in a goroutine) have finished: the goroutine count is back at or below base.
+func VerifQuiesce(base int) {
+	for i := 0; i < 5000000; i++ {
+		if runtime.NumGoroutine() <= base {
+			return
+		}
+		runtime.Gosched()
+	}
 }
 
 // VerifReset restores package-level state so that an execution is a pure function of its inputs.
@@ -97,9 +109,11 @@ func VerifBoot(h EventHandler, lfd int, opts *Options, nodesText string, info Ve
 	}
 	eng.el = el
 	if nodesText != "" {
+		base := runtime.NumGoroutine()
 		if err := EngineGlobal.ClusterNodes.updateClusterNodes(nodesText); err != nil {
 			return nil, err
 		}
+		VerifQuiesce(base)
 	}
 	return &VerifWorld{el, eng}, nil
 }
@@ -141,15 +155,25 @@ func VerifDrainClusterChan() (out [][]byte) {
 
 // VerifUpdateNodes feeds a CLUSTER NODES text through the real updateClusterNodes.
 func VerifUpdateNodes(text string) error {
-	return EngineGlobal.ClusterNodes.updateClusterNodes(text)
+	base := runtime.NumGoroutine()
+	err := EngineGlobal.ClusterNodes.updateClusterNodes(text)
+	VerifQuiesce(base)
+	return err
 }
 
 // VerifRunRefreshLoop runs the real loopClusterNodes goroutine; done is closed when it returns.
-func VerifRunRefreshLoop() (done chan struct{}) {
+// A panic inside it (which would kill the production process) is caught and reported through *panicked.
+func VerifRunRefreshLoop(panicked *interface{}) (done chan struct{}) {
 	done = make(chan struct{})
+	eg := EngineGlobal
 	go func() {
 		defer close(done)
-		EngineGlobal.ClusterNodes.loopClusterNodes()
+		defer func() {
+			if r := recover(); r != nil && panicked != nil {
+				*panicked = r
+			}
+		}()
+		eg.ClusterNodes.loopClusterNodes()
 	}()
 	return done
 }
